@@ -500,10 +500,50 @@ pub fn walk(nodes: &[adf_bdd::datatypes::BddNode], root: Term, asg: &dyn Fn(usiz
     }
 }
 
+thread_local! {
+    /// optional sparse numbering of the variables of the store under test: VARMAP[logical] = actual Var number.
+    /// All harness-side reasoning (truth tables, supports) is done on logical indices.
+    static VARMAP: RefCell<Option<Vec<usize>>> = RefCell::new(None);
+}
+
+pub struct VarMapGuard;
+
+impl Drop for VarMapGuard {
+    fn drop(&mut self) {
+        VARMAP.with(|m| *m.borrow_mut() = None);
+    }
+}
+
+/// install a sparse variable numbering for the current thread until the guard is dropped
+pub fn set_varmap(map: Option<Vec<usize>>) -> VarMapGuard {
+    VARMAP.with(|m| *m.borrow_mut() = map);
+    VarMapGuard
+}
+
+/// logical index of an actual variable number (identity without a map; unknown variables map beyond the range)
+pub fn logical(actual: usize) -> usize {
+    VARMAP.with(|m| match m.borrow().as_ref() {
+        None => actual,
+        Some(v) => v.iter().position(|a| *a == actual).unwrap_or(usize::MAX / 2),
+    })
+}
+
+/// actual variable number of a logical index (indices beyond the map get numbers beyond the last one)
+pub fn actual(logical: usize) -> usize {
+    VARMAP.with(|m| match m.borrow().as_ref() {
+        None => logical,
+        Some(v) => v.get(logical).copied().unwrap_or_else(|| v.last().copied().unwrap_or(0) + 3 + logical),
+    })
+}
+
+pub fn varmap_active() -> bool {
+    VARMAP.with(|m| m.borrow().is_some())
+}
+
 /// truth table (over nvars library variables, assignment bit i = Var(i)) of a handle
 pub fn tt_of(nodes: &[adf_bdd::datatypes::BddNode], root: Term, nvars: usize) -> Result<oracle::TT, String> {
     let err: RefCell<Option<String>> = RefCell::new(None);
-    let t = oracle::TT::from_fn(nvars, |a| match walk(nodes, root, &|i| (a >> i) & 1 == 1) {
+    let t = oracle::TT::from_fn(nvars, |a| match walk(nodes, root, &|i| (a >> logical(i).min(63)) & 1 == 1) {
         Ok(b) => b,
         Err(e) => {
             *err.borrow_mut() = Some(e);
